@@ -6,7 +6,7 @@ import checks.c10 as _c10
 PROP = "C11"
 CRATE = "c10"
 DRIVER = "C10"
-READY = False
+READY = True
 RULE = _RULE + " For C11 the exec family is enlarged (rf=1: 40 cases quick / 300 thorough)."
 def monitor(c, o):
     if c == "pins": return None
